@@ -10,7 +10,7 @@ import streams_dec
 
 ID = "C20"
 RULE = ("dec stream (decode model with carry-over buffer sizes) + exploration: per codec family one large member generated "
-        "lazily (zeros / short period / random), written with writef and extracted with extractall(factory)/testzip in "
+        "lazily (zeros / short period / medium ratio / random / incompressible head then zeros), written with writef and extracted with extractall(factory)/testzip in "
         "separate child processes; peak RSS (ru_maxrss) compared with the import baseline + 700 MiB. Quick: 256 MB "
         "members; thorough: 1 GB and more chains. Non-trivial = a run whose member is >= 2x the 128 MB extraction chunk; "
         "distinct by (chain, texture, size, phase).")
@@ -36,6 +36,12 @@ class LazySource(io.BufferedIOBase):
             import random
             r = random.Random(seed)
             self.unit = bytes(b & 0x0F for b in r.randbytes(8 << 20))
+        elif texture == "headzeros":
+            # an incompressible head (512 KiB) in front of zeros: a decoder that adapts to what it has seen so far
+            # (piece sizes, window, block statistics) meets the highly compressible part in its "incompressible" state
+            import random
+            self.head = random.Random(seed).randbytes(512 << 10)
+            self.unit = bytes(1 << 20)
         else:
             import random
             self.unit = random.Random(seed).randbytes(1 << 20)
@@ -63,6 +69,11 @@ class LazySource(io.BufferedIOBase):
             n = self.size - self.pos
         n = max(0, min(n, self.size - self.pos))
         out = bytearray()
+        head = getattr(self, "head", b"")
+        if self.pos < len(head) and n > 0:
+            chunk = head[self.pos:self.pos + n]
+            out += chunk
+            self.pos += len(chunk)
         while len(out) < n:
             o = self.pos % len(self.unit)
             chunk = self.unit[o:o + (n - len(out))]
@@ -147,7 +158,12 @@ def run(ctx):
            # medium-ratio members: the packed stream spans many input blocks, every block expands a little
            ("ZStandard-mid", [{"id": arclib.FILTER_ZSTD, "level": 1}], "mid"),
            ("Deflate-mid", [{"id": arclib.FILTER_DEFLATE}], "mid"),
-           ("Deflate64", "ref:deflate64", "zeros")]
+           ("Deflate64", "ref:deflate64", "zeros"),
+           # incompressible head, then zeros (see LazySource): every decoder family with an output limit of its own
+           ("Deflate64-head", "ref:deflate64", "headzeros"),
+           ("Deflate-head", [{"id": arclib.FILTER_DEFLATE}], "headzeros"),
+           ("ZStandard-head", [{"id": arclib.FILTER_ZSTD, "level": 1}], "headzeros"),
+           ("LZMA2-head", [{"id": arclib.FILTER_LZMA2, "preset": 1}], "headzeros")]
     if ctx.thorough:
         fam += [("LZMA", [{"id": arclib.FILTER_LZMA, "preset": 1}], "zeros"),
                 ("Brotli", [{"id": arclib.FILTER_BROTLI, "level": 1}], "zeros"),
@@ -161,7 +177,10 @@ def run(ctx):
         wjobs = []
         for i, (nm, f, tex) in enumerate(fam):
             pw = "pw" if "AES" in nm else None
-            wjobs.append((os.path.join(tmp, "a%d.7z" % i), f, pw, size, tex, ["first", "last", "middle"][i % 3]))
+            # Deflate64 has no output limit of its own (py7zr feeds it piecewise): the member that follows an
+            # incompressible head is made large enough for a one-shot inflate of the rest to cross the budget
+            sz = max(size, 448 << 20) if nm == "Deflate64-head" else size
+            wjobs.append((os.path.join(tmp, "a%d.7z" % i), f, pw, sz, tex, ["first", "last", "middle"][i % 3]))
         wres = sandbox.pmap(_write_job, wjobs, workers=8, timeout=900 if ctx.thorough else 300, mem=None)
         ejobs, emeta = [], []
         for (nm, f, tex), wj, (st, val) in zip(fam, wjobs, wres):
